@@ -325,7 +325,7 @@ def instances_rich(draw: Any, max_items: int = 14, max_dim: int = 60) -> dict:
                           max_size=4))
     pal_h = draw(st.lists(st.integers(1, max(1, (2 * H) // 3)), min_size=1,
                           max_size=3))
-    n_types = draw(st.integers(2, 6))
+    n_types = draw(st.integers(2, max(2, min(8, max_items // 2))))
     items: list[list[int]] = []
     total = 0
     for t in range(n_types):
@@ -334,18 +334,19 @@ def instances_rich(draw: Any, max_items: int = 14, max_dim: int = 60) -> dict:
         h = draw(st.sampled_from(pal_h)) if draw(st.integers(0, 4)) else \
             draw(st.integers(1, H))
         room = max_items - total - (n_types - t - 1)
-        mult = draw(st.integers(1, max(1, min(4, room))))
+        mult = draw(st.integers(1, max(1, min(6, room))))
         items.append([w, h, mult])
         total += mult
     return {"cls": "rich", "W": W, "H": H, "items": items}
 
 
 @st.composite
-def decode_case(draw: Any, rich_share: int = 5, **kw: Any) -> dict:
+def decode_case(draw: Any, rich_share: int = 5, rich_items: int = 24,
+                **kw: Any) -> dict:
     """Like :func:`instance_and_perm`; ``rich_share`` of 10 instances come
     from :func:`instances_rich`, the others from :func:`instances`."""
     if draw(st.integers(0, 9)) < rich_share:
-        inst = draw(instances_rich(max_items=kw.get("max_items", 14)))
+        inst = draw(instances_rich(max_items=rich_items))
     else:
         inst = draw(instances(**kw))
     x = draw(signed_perm(inst))
